@@ -29,10 +29,10 @@ def WalRec.isLabelDef : WalRec → Bool
   | .createLabel _ _ => true
   | _ => false
 
-/-- scan_recovery_state found neither manifest nor checkpoint -/
-def ScanClean (txs : List (Nat × List WalRec)) : Prop :=
-  (scanRecovery txs).epoch = 0 ∧ (scanRecovery txs).segs = [] ∧ (scanRecovery txs).ckptTxid = 0 ∧
-  (scanRecovery txs).propsRoot = 0
+/-- what scan_recovery_state finds in the log: epoch, published segment ids, checkpoint txid, root -/
+def ScanIs (epoch : Nat) (segs : List Nat) (ckpt root : Nat) (txs : List (Nat × List WalRec)) : Prop :=
+  (scanRecovery txs).epoch = epoch ∧ (scanRecovery txs).segs = segs ∧ (scanRecovery txs).ckptTxid = ckpt ∧
+  (scanRecovery txs).propsRoot = root
 
 def scanOp (st : Recovery) (op : WalRec) : Recovery :=
   match op with
@@ -61,14 +61,30 @@ theorem scanOps_noMeta (ops : List WalRec) (st : Recovery) (h : ∀ r ∈ ops, r
     rw [List.foldl_cons, this]
     exact ih st (fun x hx => h x (List.mem_cons_of_mem _ hx))
 
-theorem ScanClean.append {txs : List (Nat × List WalRec)} (h : ScanClean txs) (tx : Nat × List WalRec)
-    (hm : ∀ r ∈ tx.2, r.isMeta = false) : ScanClean (txs ++ [tx]) := by
-  unfold ScanClean at *
+theorem ScanIs.append {e : Nat} {ids : List Nat} {ck root : Nat} {txs : List (Nat × List WalRec)}
+    (h : ScanIs e ids ck root txs) (tx : Nat × List WalRec)
+    (hm : ∀ r ∈ tx.2, r.isMeta = false) : ScanIs e ids ck root (txs ++ [tx]) := by
+  unfold ScanIs at *
   rw [scanRecovery_eq] at *
   rw [List.foldl_append, List.foldl_cons, List.foldl_nil]
   obtain ⟨h1, h2, h3, h4⟩ :=
     scanOps_noMeta tx.2 { (txs.foldl scanTx {}) with maxTxid := max (txs.foldl scanTx {}).maxTxid tx.1 } hm
   exact ⟨h1.trans h.1, h2.trans h.2.1, h3.trans h.2.2.1, h4.trans h.2.2.2⟩
+
+theorem scanOp_maxTxid (st : Recovery) (r : WalRec) : (scanOp st r).maxTxid = st.maxTxid := by
+  cases r <;> simp only [scanOp] <;> first | rfl | (split <;> rfl)
+
+theorem scanOps_maxTxid (ops : List WalRec) (st : Recovery) : (ops.foldl scanOp st).maxTxid = st.maxTxid := by
+  induction ops generalizing st with
+  | nil => rfl
+  | cons r rs ih => rw [List.foldl_cons, ih, scanOp_maxTxid]
+
+/-- the highest txid of the log -/
+theorem scan_maxTxid_append (txs : List (Nat × List WalRec)) (tx : Nat × List WalRec) :
+    (scanRecovery (txs ++ [tx])).maxTxid = max (scanRecovery txs).maxTxid tx.1 := by
+  rw [scanRecovery_eq, scanRecovery_eq, List.foldl_append, List.foldl_cons, List.foldl_nil]
+  unfold scanTx
+  rw [scanOps_maxTxid]
 
 /-! ### replay_label_transactions -/
 
